@@ -141,7 +141,7 @@ impl Compiler {
         let global_idx = self.get_or_create_global_index("__tostring")?;
         self.accessed_globals.insert("__tostring".to_string());
         if global_idx <= u8::MAX as u16 {
-            self.emit_call_global_cached(reg, global_idx as u8, 1, "__tostring", span);
+            self.emit_call_global_cached(reg, global_idx as u8, 1, "__tostring", span)?;
         } else {
             // CallGlobal holds the global's index in one byte: load the function into the
             // call's own register and call it by value (its argument is already in reg + 1)
